@@ -37,7 +37,7 @@ m = dict(
                                  'environment with an independent MQTT reference model as oracle; native go fuzzing in thorough tiers')],
     checks=checks,
     not_applicable=na,
-    notes='Known findings and fixed defects: known_findings.json. Seeded breakages and what catches them: seeded/, DESIGN.md §12.',
+    notes='Known findings and fixed defects: known_findings.json. Findings: DESIGN.md §12. Seeded breakages and hand-written mutants and what catches them: seeded/, mutants/, SENSITIVITY.md, DESIGN.md §13. Thorough-tier results: thorough/RESULTS.md.',
 )
 json.dump(m, open(os.path.join(here, 'MANIFEST.json'), 'w'), indent=1)
 print('claimed:', ' '.join(c['property_id'] for c in checks))
